@@ -321,6 +321,7 @@ func runJSONFormatters(rc *RunCtx) {
 			which := tp.Choose(3, "node")
 			predMode := tp.Choose(4, "pred") // 0 absent, 1 true, 2 false, 3 error
 			predErr := errors.New("injected predicate error")
+			predKeep := predMode == 3 && tp.Choose(2, "pred-error-with-true") == 0 // an error is an error, whatever the bool beside it says
 			var out *el.Event
 			var err error
 			switch which {
@@ -334,7 +335,7 @@ func runJSONFormatters(rc *RunCtx) {
 				case 2:
 					ff.Predicate = func(interface{}) (bool, error) { return false, nil }
 				case 3:
-					ff.Predicate = func(interface{}) (bool, error) { return false, predErr }
+					ff.Predicate = func(interface{}) (bool, error) { return predKeep, predErr }
 				}
 				out, err = ff.Process(context.Background(), e)
 			default:
@@ -346,7 +347,7 @@ func runJSONFormatters(rc *RunCtx) {
 				case 2:
 					f.Predicate = func(*el.Event) (bool, error) { return false, nil }
 				case 3:
-					f.Predicate = func(*el.Event) (bool, error) { return false, predErr }
+					f.Predicate = func(*el.Event) (bool, error) { return predKeep, predErr }
 				}
 				out, err = f.Process(context.Background(), e)
 				switch {
@@ -716,13 +717,14 @@ func runCloudEvents(rc *RunCtx) {
 	}
 	predMode := tp.Choose(5, "pred") // 0,1 absent; 2 true; 3 false; 4 error
 	predErr := errors.New("injected predicate error")
+	predKeep := predMode == 4 && tp.Choose(2, "pred-error-with-true") == 0
 	switch predMode {
 	case 2:
 		ff.Predicate = func(context.Context, interface{}) (bool, error) { return true, nil }
 	case 3:
 		ff.Predicate = func(context.Context, interface{}) (bool, error) { return false, nil }
 	case 4:
-		ff.Predicate = func(context.Context, interface{}) (bool, error) { return false, predErr }
+		ff.Predicate = func(context.Context, interface{}) (bool, error) { return predKeep, predErr }
 	}
 	n := 1 + tp.Choose(8, "n")
 	var descs []string
